@@ -928,6 +928,8 @@ package ecs
 //@ func World.createEntities(w, arch, count)
 //@   requires worldIdxInv(w) && arch != nil && len(w.entities) < 536870911 && count >= 1 && count < 536870911
 //@   flag noframe
+//@   ensures forall t *archetype :: {t.archetypeAccess.RelationTarget.id} t.archetypeAccess.RelationTarget == old(t.archetypeAccess.RelationTarget)
+//@   modifies *(&w.entityPool), w.entityPool.entities[ALL], w.entities, w.entities[ALL], *(&w.targetEntities), w.targetEntities.data[ALL], all(archetype.len), all(archetype.cap), all(archetypeAccess.entityPointer), all(layout.pointer)
 //@   ensures worldIdxInv(w)
 //@   ensures len(w.entityPool.entities) - 1 - int(w.entityPool.available) == old(len(w.entityPool.entities) - 1 - int(w.entityPool.available)) + int(count)
 //@   loop #1
@@ -1942,3 +1944,23 @@ package ecs
 //@   inv arches.data == nil || fresh(arches.data)
 //@   loop #2
 //@   inv arches.data == nil || fresh(arches.data)
+
+// ---------------------------------------------------------------------------------------------
+// C10 / C05 — batch creation: argument checks before any change, target of the destination table
+// ---------------------------------------------------------------------------------------------
+// newEntitiesNoNotify: refused before any change on a locked world, for a non-positive count, for a dead relation target and
+// for a relation ID that is not the relation component of the resulting table; otherwise the entities are created in a
+// table whose relation target (if it has a relation component) is exactly the given one. The index sizing loop
+// createEntities is an ASSUMED contract (its draft proof exceeds the time limits).
+//@ func World.newEntitiesNoNotify(w, count, targetID, hasTarget, target, comps) (arch, start)
+//@   props C10 C05 C09
+//@   requires lockInv(&w.locks) && regInv(&w.registry) && worldIdxInv(w) && validID(targetID.id) && count < 536870911 && len(w.entities) < 536870911
+//@   requires target.id != 0 ==> int(target.id) < len(w.entityPool.entities)
+//@   requires validID(pgArch(&w.archetypes, 0).archetypeAccess.RelationComponent.id) && pgArch(&w.archetypes, 0).node != nil && !pgArch(&w.archetypes, 0).archetypeAccess.HasRelationComponent
+//@   flag nosafe may_panic panic_clean noframe
+//@   lockfast isLocked(w)
+//@   panics_if count < 1
+//@   panics_if target.id != 0 && !entAlive(w, target)
+//@   ensures arch != nil && start == old(arch.len)
+//@   ensures[target] len(comps) > 0 && arch.archetypeAccess.HasRelationComponent ==> arch.archetypeAccess.RelationTarget == target
+//@   ensures[relation] hasTarget ==> arch.node.HasRelation && arch.node.Relation.id == targetID.id
